@@ -58,6 +58,40 @@ def subst_poly(p, mapping):
     return out
 
 
+def constructor_attributes(init: ast.FunctionDef) -> dict:
+    """self.<attr> = value of the constructor, locals resolved; an attribute assigned in both arms of one `if` becomes the
+    conditional expression `A if T else B` (then canonical: `True if T else E` is `T or E`)."""
+    from .resolve import env_at as _ea, resolved as _rs
+    from .sem import canon as _cn
+    out = {}
+    def visit(stmts):
+        for st in stmts:
+            if isinstance(st, ast.Assign):
+                for t in st.targets:
+                    d = dotted(t)
+                    if d and d.startswith("self."):
+                        out[d[5:]] = _rs(st.value, _ea(st, init))
+            elif isinstance(st, ast.If):
+                def arm(body):
+                    vals = {}
+                    for x in body:
+                        if isinstance(x, ast.Assign) and len(x.targets) == 1 and (dotted(x.targets[0]) or "").startswith("self."):
+                            vals[dotted(x.targets[0])[5:]] = _rs(x.value, _ea(x, init))
+                        else:
+                            return None
+                    return vals
+                a1, a2 = arm(st.body), arm(st.orelse)
+                if a1 is not None and a2 is not None and a1.keys() == a2.keys() and a1:
+                    test = _rs(st.test, _ea(st, init))
+                    for k in a1:
+                        out[k] = _cn(ast.IfExp(test=test, body=a1[k], orelse=a2[k]))
+                else:
+                    visit(st.body)
+                    visit(st.orelse)
+    visit(init.body)
+    return out
+
+
 class ProjectorModel:
     def __init__(self, repo: Repo):
         self.repo = repo
@@ -77,13 +111,7 @@ class ProjectorModel:
             raise AnalysisError(RULE, f"unexpected constructor parameters {self.init_params}")
         self.init_cache = {}
         self.init_assign = {}
-        from .resolve import env_at as _ea, resolved as _rs
-        for n in own_nodes(self.init):
-            if isinstance(n, ast.Assign):
-                for t in n.targets:
-                    d = dotted(t)
-                    if d and d.startswith("self."):
-                        self.init_assign[d[5:]] = _rs(n.value, _ea(n, self.init))  # constructor locals resolved
+        self.init_assign = constructor_attributes(self.init)  # constructor locals resolved, if/else assignments merged
         # the texts that denote the Hermitian flag inside the constructor: the attribute, or the expression stored in it
         self.herm_texts = {"self._hermitian"} | ({norm(self.init_assign["_hermitian"])} if "_hermitian" in self.init_assign else set())
         for k in CACHE_OP:
@@ -324,13 +352,7 @@ def rule_projector(rep: Report, repo: Repo):
     vecs_p, left_p = m.init_params
     # -- constructor wiring ----------------------------------------------------------
     from .resolve import env_at as _env_at, resolved as _resolved
-    a = {}
-    for n_ in own_nodes(init):
-        if isinstance(n_, ast.Assign):
-            for t_ in n_.targets:
-                d_ = dotted(t_)
-                if d_ and d_.startswith("self."):
-                    a[d_[5:]] = _resolved(n_.value, _env_at(n_, init))
+    a = constructor_attributes(init)
     rep.check(norm(a.get("_vecs", ast.Constant(None))) == vecs_p, RULE,
               f"{CLS}.__init__ stores R = `{vecs_p}`", "", loc(init))
     herm = a.get("_hermitian")
@@ -338,7 +360,11 @@ def rule_projector(rep: Report, repo: Repo):
     if herm is not None:
         from .sem import Scope, inline
         herm = inline(herm, Scope(repo.trees["linalg"], init))  # a module-level predicate helper is expanded
-        atoms = herm.values if isinstance(herm, ast.BoolOp) and isinstance(herm.op, ast.Or) else [herm]
+        def disjuncts(e):
+            if isinstance(e, ast.BoolOp) and isinstance(e.op, ast.Or):
+                return [d_ for v_ in e.values for d_ in disjuncts(v_)]
+            return [e]
+        atoms = disjuncts(herm)
         allowed = {f"{left_p} is None", f"{left_p} is {vecs_p}", f"{vecs_p} is {left_p}",
                    f"np.array_equal({left_p}, {vecs_p})", f"np.array_equal({vecs_p}, {left_p})"}
         texts = {norm(x) for x in atoms}
